@@ -48,6 +48,10 @@ type Plan struct {
 	Long int `json:"long,omitempty"`
 	// Scribble: the consumer, which owns every batch it was handed, appends to it and overwrites its spare capacity
 	Scribble bool  `json:"scribble,omitempty"`
+	// Busy: a producer that is always ahead (200 items without gaps), a predicate that takes FullLat per item and
+	// never says "full", a consumer that waits from the start: the batcher always has another item to take, and
+	// still owes the waiting consumer the underfilled batch once it is overdue
+	Busy     bool  `json:"busy,omitempty"`
 	Consumer []COp `json:"consumer"`
 }
 
@@ -100,6 +104,13 @@ func genPlan(t *rapid.T) Plan {
 	}
 	if p.Long > 0 {
 		p.Deaf, p.Huge = false, false
+		p.Consumer = []COp{{Op: "drain"}}
+	}
+	if p.Long == 0 && rapid.IntRange(0, 39).Draw(t, "busy") == 0 {
+		p.Busy, p.Func, p.Sizes, p.Size = true, true, []int{1000}, 3
+		p.FullLat = rapid.SampledFrom([]int{200, 700}).Draw(t, "busylat")
+		p.Gaps = make([]int, 200)
+		p.Deaf, p.Huge, p.EndGap = false, false, 0
 		p.Consumer = []COp{{Op: "drain"}}
 	}
 	return p
@@ -301,6 +312,25 @@ func script(p Plan, out *vk.Outcome) error {
 			if r.T.After(due) {
 				return vk.Violf("held-back", "%s: batch %v handed out %v after it was due (oldest item arrived at +%v, maxWait %v, consumer waiting since +%v)",
 					what, b, r.T.Sub(due), arrival.Sub(recs[0].tc), maxWait, r.tc.Sub(recs[0].tc))
+			}
+		}
+		// ... and with a slow predicate: the timer may fire while the batcher is inside full(), and when it comes
+		// back to its select the next item may win against the timer and the waiting consumer - again and again,
+		// but each time with probability <= 1/2 (three arms are ready, one of them continues): 40 rounds in a row
+		// do not happen (2^-40)
+		if p.FullLat > 0 && !p.Huge && (timeout == 0 || r.T.Sub(r.tc) < timeout) && len(b) < threshold(b[0]) {
+			arrival := h
+			if lastDelivery.After(arrival) {
+				arrival = lastDelivery
+			}
+			due := arrival.Add(maxWait)
+			if r.tc.After(due) {
+				due = r.tc
+			}
+			// (a batch that was not yet due when the source ended leaves because of the end, whenever that is noticed)
+			if late := r.T.Sub(due); late > 41*time.Duration(p.FullLat)*time.Millisecond && !(ended && endAt.Before(due)) {
+				return vk.Violf("held-back", "%s: underfilled batch of %d items handed out %v after it was due (oldest item arrived at +%v, maxWait %v, consumer waiting since +%v; the predicate takes %d ms per item)",
+					what, len(b), late, arrival.Sub(recs[0].tc), maxWait, r.tc.Sub(recs[0].tc), p.FullLat)
 			}
 		}
 		lastDelivery = r.T
